@@ -123,6 +123,19 @@ def gen_inputs(ctx):
             v2 = (v + dv) % 2 ** 32
             if v2 not in W.VERSIONS.values():
                 out.append(("Import", {"s": T(R.b58check_enc(payload_of(base, v2, t[0] == "prv")))}, ("import-unknown", "near", dv)))
+    # the rest of the SLIP-132 registry (multisig Ypub/Zpub/Upub/Vpub and their private twins, other coins): known
+    # to other software, unknown to this library
+    for v2 in (0x0295b43f, 0x0295b005, 0x02aa7ed3, 0x02aa7a99, 0x024289ef, 0x024285b5, 0x02575483, 0x02575048,
+               0x01b26ef6, 0x01b26792, 0x02fe52cc, 0x02fe52f8, 0x0436f6e1, 0x0436ef7d):
+        for prv in (True, False):
+            out.append(("Import", {"s": T(R.b58check_enc(payload_of(base, v2, prv)))}, ("import-unknown", "slip132-registry")))
+    # key data that contradicts the version: a public version carrying 00 || k, a private version carrying a point -
+    # the VERSION decides the key type (such a key may be refused; it must not become a wallet of the other type)
+    for t in TRIPLES:
+        good_ = payload_of(base, W.VERSIONS[t], t[0] == "prv")
+        other = payload_of(base, W.VERSIONS[t], t[0] != "prv")
+        crossed = good_[:45] + other[45:]
+        out.append(("Import", {"s": T(R.b58check_enc(crossed))}, ("import-key-data-contradicts-version", t[0])))
     for v2 in (0x019da462, 0x019d9cfe, 0x02facafd, 0x02fac398, 0, 0xffffffff, 0x0488b21f, 0x0488ade5):
         for prv in (True, False):
             out.append(("Import", {"s": T(R.b58check_enc(payload_of(base, v2, prv)))}, ("import-unknown", "foreign")))
